@@ -3,7 +3,7 @@
 From Coq Require Import List Arith NArith Lia Bool ZifyN ZifyNat ZifyBool.
 From FS Require Import Sx Model.Path Model.Fs Model.RootPath Model.CopyFs Model.CopyFsSpec
   Proofs.Lex Proofs.PathP Proofs.FsP Proofs.RootPathStrP Proofs.FsCopyFrameP Proofs.FsCopyInvP
-  Proofs.FsCopySafeP Proofs.FsCopyLinksP Proofs.FsCopySysP Proofs.CopyFsP Proofs.CopyRecP Proofs.CopyFsTopP.
+  Proofs.FsCopySafeP Proofs.FsCopyLinksP Proofs.FsCopySysP Proofs.CopyFsP Proofs.CopyRecP Proofs.CopyFsRec2P Proofs.CopyFsTopP.
 Import ListNotations.
 Open Scope N_scope.
 Open Scope bool_scope.
@@ -127,81 +127,115 @@ Section Top2.
   Qed.
 
   Lemma lstat_opt_root s : Ctx (s_fs s) -> exists n, kind_is_dir n = true /\
-    lstat_opt c (render dcs) s = ({| s_fs := s_fs s; s_links := s_links s; s_reads := s_reads s |}, inl (Some (dr, n))) /\
-    lstat_opt_nd c (render dcs) s = ({| s_fs := s_fs s; s_links := s_links s; s_reads := s_reads s |}, inl (Some (dr, n))).
+    lstat_opt c (render dcs) s = ({| s_fs := s_fs s; s_links := s_links s; s_parents := s_parents s; s_reads := s_reads s |}, inl (Some (dr, n))) /\
+    lstat_opt_nd c (render dcs) s = ({| s_fs := s_fs s; s_links := s_links s; s_parents := s_parents s; s_reads := s_reads s |}, inl (Some (dr, n))).
   Proof.
     intros C. destruct (lstat_root (s_fs s) C) as (n & E & Hk). exists n. split; auto.
     unfold lstat_opt, lstat_opt_nd. rewrite !bind_run, !sys_run. cbn [fst snd]. rewrite sys_lstat_fs, E. split; reflexivity.
   Qed.
 
   (* ---- copier.copy onto the destination root: the source must be a directory ---- *)
-  Lemma copy_rec_root_spec k o src s s' r :
-    Ctx (s_fs s) -> lok s ->
+  Lemma copy_rec_root_spec k o sl src s s' r :
+    Ctx (s_fs s) -> lok s -> s_parents s = [] ->
     (forall ino fi, snd (sys_lstat c (s_fs s) src) = RStat ino fi -> kind_is_dir fi = true) ->
-    copy_rec (S k) c o src (render dcs) false s = (s', r) -> stays_ok dr s s' r.
+    copy_rec (S k) c o sl src [] (render dcs) false [] [] s = (s', r) ->
+    stays_ok dr s s' r /\ (ok_res r -> s_parents s' = []).
   Proof.
-    intros C L Hsrc H. cbn [copy_rec] in H. rewrite bind_run, sys_run in H. cbn [fst snd] in H. rewrite sys_lstat_fs in H.
+    intros C L Hst Hsrc H. cbn [copy_rec] in H. rewrite bind_run, sys_run in H. cbn [fst snd] in H. rewrite sys_lstat_fs in H.
     assert (Hdr : is_dir (s_fs s) dr = true) by (eapply chain_end_dir; apply (cx_root _ _ _ _ _ C)).
-    assert (Hsame : forall s1 (r1 : unit + N), s_fs s1 = s_fs s -> s_links s1 = s_links s -> stays_ok dr s s1 r1).
-    { intros s1 r1 E1 E2. apply stays_stays_ok. apply stays_same; auto. }
+    assert (Hsame : forall s1 (r1 : unit + N), s_fs s1 = s_fs s -> s_links s1 = s_links s -> s_parents s1 = s_parents s ->
+              stays_ok dr s s1 r1 /\ (ok_res r1 -> s_parents s1 = [])).
+    { intros s1 r1 E1 E2 E3. split; [apply stays_stays_ok; apply stays_same; auto|]. intros _. congruence. }
     destruct (snd (sys_lstat c (s_fs s) src)) as [|e|ino fi| | |] eqn:Esrc;
       try (unfold fail in H; injection H as <- <-; apply Hsame; reflexivity).
     pose proof (Hsrc ino fi eq_refl) as Hkd.
-    rewrite bind_run, log_read_run in H. cbn [s_fs s_links s_reads] in H.
-    set (s1 := {| s_fs := s_fs s; s_links := s_links s; s_reads := ino :: s_reads s |}) in *.
+    rewrite bind_run, log_read_run in H. cbn [s_fs s_links s_parents s_reads] in H.
+    set (s1 := {| s_fs := s_fs s; s_links := s_links s; s_parents := s_parents s; s_reads := ino :: s_reads s |}) in *.
     assert (C1 : Ctx (s_fs s1)) by exact C.
-    (* prep_target does nothing *)
     destruct (lstat_opt_root s1 C1) as (n & Hkn & El & Eln).
-    rewrite bind_run in H. unfold prep_target in H. rewrite bind_run, Eln in H.
-    set (s2 := {| s_fs := s_fs s1; s_links := s_links s1; s_reads := s_reads s1 |}) in H.
-    assert (E2 : remove_target_if_needed c o (render dcs) fi (Some (dr, n)) s2 = (s2, inl tt)).
-    { unfold remove_target_if_needed. destruct (negb (o_always_replace o)); [reflexivity|]. rewrite Hkd, Hkn. reflexivity. }
-    rewrite bind_run, E2 in H. rewrite bind_run in H. rewrite Hkd in H. cbn [ret] in H.
-    assert (C2 : Ctx (s_fs s2)) by exact C.
+    rewrite bind_run, Eln in H. cbv zeta in H. cbn [is_nil fst snd andb negb] in H.
+    set (s2 := {| s_fs := s_fs s1; s_links := s_links s1; s_parents := s_parents s1; s_reads := s_reads s1 |}) in H.
+    (* createParentDirs: the stack is empty *)
+    assert (Ecp : create_parent_dirs c o false s2 = (CopyRecP.setp s2 [], inl tt)).
+    { unfold create_parent_dirs. rewrite bind_run, get_parents_run. cbn [s_parents s2 s1]. rewrite Hst. reflexivity. }
+    rewrite bind_run, Ecp in H.
+    set (s3 := CopyRecP.setp s2 []) in H.
+    (* prep_rest does nothing: both are directories *)
+    assert (Epr : prep_rest c o (render dcs) fi (Some (dr, n)) s3 = (s3, inl tt)).
+    { unfold prep_rest. rewrite bind_run.
+      assert (E2 : remove_target_if_needed c o (render dcs) fi (Some (dr, n)) s3 = (s3, inl tt)).
+      { unfold remove_target_if_needed. destruct (negb (o_always_replace o)); [reflexivity|]. rewrite Hkd, Hkn. reflexivity. }
+      rewrite E2. rewrite Hkd. reflexivity. }
+    rewrite bind_run, Epr in H.
+    assert (C3 : Ctx (s_fs s3)) by exact C.
     unfold kind_is_dir in Hkd. destruct (i_kind fi) as [pp es|?|?|? ?] eqn:Ek; try discriminate.
     (* copy_directory_only does nothing *)
-    destruct (lstat_opt_root s2 C2) as (n2 & Hkn2 & El2 & _).
+    destruct (lstat_opt_root s3 C3) as (n2 & Hkn2 & El2 & _).
     rewrite bind_run in H. unfold copy_directory_only in H. rewrite bind_run, El2 in H. rewrite Hkn2 in H. cbn [negb ret] in H.
-    set (s3 := {| s_fs := s_fs s2; s_links := s_links s2; s_reads := s_reads s2 |}) in H.
-    assert (C3 : Ctx (s_fs s3)) by exact C.
+    rewrite bind_run, push_parent_run in H. cbn [s_parents s3 CopyRecP.setp app] in H.
+    set (Pst := [(src, render dcs, true)]) in H.
     rewrite bind_run, sys_run in H. cbn [fst snd] in H. rewrite sys_readdir_fs in H.
-    destruct (snd (sys_readdir c (s_fs s3) src)) as [|e|i0 n0|b0|names|i0] eqn:Er;
-      try (unfold fail in H; injection H as <- <-; apply Hsame; reflexivity).
-    pose proof (readdir_names c f0 dr (s_fs s3) src names (cx_inv _ _ _ _ _ C3) Er) as Hnames.
+    match type of H with context [sys_readdir c (s_fs ?sX) src] => set (s4 := sX) in H end.
+    assert (F4 : s_fs s4 = s_fs s) by reflexivity. assert (EL4 : s_links s4 = s_links s) by reflexivity.
+    assert (C4 : Ctx (s_fs s4)) by exact C.
+    assert (Hany : forall s9 (r9 : unit + N), s_fs s9 = s_fs s -> s_links s9 = s_links s ->
+              stays_ok dr s s9 r9).
+    { intros s9 r9 E1 E2. split; [rewrite E1; exact C|]. split; [rewrite E1; apply above_refl|].
+      split; [intros _ Lx; unfold CopyFsP.lok; rewrite E1, E2; exact Lx|rewrite E1; apply keeps_new_refl]. }
+    destruct (snd (sys_readdir c (s_fs s4) src)) as [|e|i0 n0|b0|names|i0] eqn:Er;
+      try (unfold fail in H; injection H as <- <-; split; [apply Hany; reflexivity|intros [a Ha]; discriminate]).
+    pose proof (readdir_names c f0 dr (s_fs s4) src names (cx_inv _ _ _ _ _ C4) Er) as Hnames.
     rewrite bind_run in H. unfold get_fs at 1 in H. rewrite bind_run in H.
-    assert (Hlog : forall ff sX, exists s5, (match resolve_ino c ff src true with inl di => log_read di | inr _ => ret tt end) sX = (s5, inl tt)
-                              /\ s_fs s5 = s_fs sX /\ s_links s5 = s_links sX).
+    assert (Hlog : forall ff sX, exists sY, (match resolve_ino c ff src true with inl di => log_read di | inr _ => ret tt end) sX = (sY, inl tt)
+                          /\ s_fs sY = s_fs sX /\ s_links sY = s_links sX /\ s_parents sY = s_parents sX).
     { intros ff sX. destruct (resolve_ino c ff src true); [rewrite log_read_run|cbn [ret]];
-        eexists; (split; [reflexivity|split; reflexivity]). }
+        eexists; (split; [reflexivity|repeat split; reflexivity]). }
     match type of H with context [(match resolve_ino c ?ff src true with inl di => log_read di | inr _ => ret tt end) ?sX] =>
-      destruct (Hlog ff sX) as (s5 & E5 & F5 & EL5); rewrite E5 in H end.
-    cbn [s_fs s_links] in F5, EL5.
+      destruct (Hlog ff sX) as (s5 & E5 & F5 & EL5 & Pa5); rewrite E5 in H end.
+    cbn [s_fs s_links s_parents s4 s3 s2 s1 CopyRecP.setp] in F5, EL5, Pa5.
     assert (C5 : Ctx (s_fs s5)) by (rewrite F5; auto).
     assert (L5 : lok s5) by (unfold CopyFsP.lok; rewrite F5, EL5; exact L).
-    eapply (stays_ok_pre c f0 dr dcs dr s s5 s'); [exact Hdr|apply stays_same; auto|].
+    assert (S05 : stays_ok dr s s5 (@inl unit N tt)) by (apply Hany; auto).
     assert (Hd5 : is_dir (s_fs s5) dr = true) by (rewrite F5; auto).
-    assert (Hc5 : chain (s_fs s5) dr [] dr) by (constructor; auto).
-    assert (Hj : forall n1, okn n1 -> join2 (render dcs) n1 = tpath [] n1).
-    { intros n1 [Hn1 _]. apply join_root_child; auto. apply (cx_dcs _ _ _ _ _ C). }
+    pose proof (cx_dcs _ _ _ _ _ C) as Hdn.
     rewrite bind_run in H.
-    assert (Heach : forall s6 r6,
-              each_m (fun n1 => copy_rec k c o (join2 src n1) (join2 (render dcs) n1) true) (sorted_names names) s5 = (s6, r6) ->
-              stays_ok dr s5 s6 r6).
-    { intros s6 r6 E6. eapply (each_m_spec c f0 dr dcs _ dr []); try exact E6; auto.
-      - intros n1 sa sb rb Hn Ta La Ha. cbv beta in Ha. rewrite (Hj n1 Hn) in Ha. eapply copy_rec_spec; eauto.
-      - apply sorted_names_forall; auto. }
-    destruct (each_m (fun n1 => copy_rec k c o (join2 src n1) (join2 (render dcs) n1) true) (sorted_names names) s5)
+    set (I := fun s0 : cst => Ctx (s_fs s0) /\ s_parents s0 = Pst).
+    assert (HI : forall s0, I s0 -> Ctx (s_fs s0) /\ is_dir (s_fs s0) dr = true).
+    { intros s0 (C0 & _). split; auto. eapply chain_end_dir. apply (cx_root _ _ _ _ _ C0). }
+    assert (Hg : forall n1 sa sb rb, okn n1 -> I sa -> lok sa ->
+              copy_rec k c o sl (join2 src n1) (join2 [] n1) (join2 (render dcs) n1) true [] [] sa = (sb, rb) ->
+              stays_ok dr sa sb rb /\ (ok_res rb -> I sb)).
+    { intros n1 sa sb rb Hn (Ca & Pa) La Ha.
+      rewrite (join2_names dcs n1 Hdn (proj1 Hn)) in Ha.
+      replace (dcs ++ [n1]) with (dcs ++ [] ++ [] ++ [n1]) in Ha by reflexivity.
+      assert (Hca : chain (s_fs sa) dr [] dr) by (constructor; eapply chain_end_dir; apply (cx_root _ _ _ _ _ Ca)).
+      destruct (copy_rec_spec c f0 dr dcs k o sl (join2 src n1) (join2 [] n1) [] dr [] n1 true [] [] sa sb rb Ca Hca) as (Sb & Pb); auto;
+        try apply Hn.
+      { rewrite Pa. reflexivity. }
+      split; auto. intros Hr. split; [apply Sb|].
+      destruct (Pb Hr) as [Eq|[Eq _]]; rewrite Eq, Pa; reflexivity. }
+    assert (I5 : I s5) by (split; [exact C5|rewrite Pa5; reflexivity]).
+    destruct (each_m (fun n1 => copy_rec k c o sl (join2 src n1) (join2 [] n1) (join2 (render dcs) n1) true [] []) (sorted_names names) s5)
       as [s6 [[]|e]] eqn:E6.
-    2:{ injection H as <- <-. eapply Heach; eauto. }
-    pose proof (Heach s6 _ eq_refl) as S6.
-    eapply (stays_ok_seq c f0 dr dcs dr s5 s6 s' tt); [exact Hd5|exact S6|].
-    assert (C6 : Ctx (s_fs s6)) by apply S6.
+    2:{ injection H as <- <-.
+        destruct (each_m_inv c f0 dr dcs I _ dr HI Hg _ (sorted_names_forall _ _ Hnames) s5 s6 _ I5 L5 E6) as (S6 & _).
+        split; [|intros [a Ha]; discriminate].
+        eapply (stays_ok_seq c f0 dr dcs dr s s5 s6 tt); eauto. }
+    destruct (each_m_inv c f0 dr dcs I _ dr HI Hg _ (sorted_names_forall _ _ Hnames) s5 s6 _ I5 L5 E6) as (S6 & I6).
+    destruct (I6 (ex_intro _ tt eq_refl)) as (C6 & Pa6).
+    rewrite bind_run, pop_parent_run in H. rewrite Pa6 in H. cbn [removelast Pst] in H.
+    set (s7 := CopyRecP.setp s6 []) in H.
+    assert (S07 : stays_ok dr s s7 (@inl unit N tt)).
+    { eapply (stays_ok_seq c f0 dr dcs dr s s5 s7 tt); [exact Hdr|exact S05|].
+      eapply (stays_ok_seq c f0 dr dcs dr s5 s6 s7 tt); [exact Hd5|exact S6|]. apply stays_ok_setp. exact C6. }
     cbn [orb] in H. unfold copy_file_timestamp in H. cbv zeta in H.
     rewrite bind_run, sys_run in H. cbn [fst snd] in H.
-    destruct (sys_utimens c (s_fs s6) (render dcs) _) as [f7 r7] eqn:E7. cbn [fst snd] in H.
-    pose proof (utimens_root (s_fs s6) _ f7 r7 C6 E7) as M7.
+    destruct (sys_utimens c (s_fs s7) (render dcs) _) as [f8 r8] eqn:E8. cbn [fst snd] in H.
+    pose proof (utimens_root (s_fs s7) _ f8 r8 C6 E8) as M8.
     rewrite expect_ok_run in H. injection H as <- <-.
-    apply stays_stays_ok. apply (stays_meta c f0 dr dcs dr s6 f7 M7).
+    split; [|intros _; reflexivity].
+    eapply (stays_ok_seq c f0 dr dcs dr s s7 _ tt); [exact Hdr|exact S07|].
+    apply stays_stays_ok. apply (stays_meta c f0 dr dcs dr s7 f8 M8).
   Qed.
 
   (* ---- a path above (or at) the root: MkdirAll finds it and does nothing ---- *)
@@ -220,7 +254,7 @@ Section Top2.
   Qed.
 
   Lemma mkdir_all_above k o f p m s s' r : s_fs s = f -> chain f rt p m -> Forall nm p -> Forall nonul p -> (length p < rfuel)%nat ->
-    mkdir_all k c o (render p) s = (s', r) -> s_fs s' = f /\ s_links s' = s_links s /\ (forall cr, r = inl cr -> cr = []).
+    mkdir_all k c o (render p) s = (s', r) -> s_fs s' = f /\ s_links s' = s_links s /\ s_parents s' = s_parents s /\ (forall cr, r = inl cr -> cr = []).
   Proof.
     intros <- Hc Hd Hn Hl H. destruct k as [|k].
     - cbn [mkdir_all] in H. unfold fail in H. injection H as <- <-. repeat split; auto. discriminate.
@@ -272,11 +306,11 @@ Section Top2.
           apply Forall_app in Hd, Hdn. exists l0, m. repeat split; try tauto. rewrite app_length in Hl. simpl in Hl. lia. }
       destruct Habove as (p & m & Ep & Hc & Hp1 & Hp2 & Hp3). rewrite Ep in H.
       destruct (mkdir_all k c o (render p) s) as [s1 [cr|e]] eqn:E1.
-      + destruct (mkdir_all_above k o (s_fs s) p m s s1 _ eq_refl Hc Hp1 Hp2 Hp3 E1) as (F1 & L1 & P1).
+      + destruct (mkdir_all_above k o (s_fs s) p m s s1 _ eq_refl Hc Hp1 Hp2 Hp3 E1) as (F1 & L1 & Q1 & P1).
         cbn [ret] in H. injection H as <- <-. rewrite (P1 cr eq_refl).
         split; [apply stays_same; auto|]. split; auto. intros d1 created Hr. inversion Hr; subst.
         split; [|constructor]. apply td_root; auto. rewrite F1. apply Hroot. reflexivity.
-      + destruct (mkdir_all_above k o (s_fs s) p m s s1 _ eq_refl Hc Hp1 Hp2 Hp3 E1) as (F1 & L1 & _).
+      + destruct (mkdir_all_above k o (s_fs s) p m s s1 _ eq_refl Hc Hp1 Hp2 Hp3 E1) as (F1 & L1 & Q1 & _).
         injection H as <- <-. split; [apply stays_same; auto|]. split; auto. discriminate.
     - (* below the root *)
       clear Hroot. rewrite removelast_last in Hlf.
@@ -324,16 +358,16 @@ Section Top2.
     intros C Hn Hnul Hlf Hsn Hsrc H. unfold prepare_target_dir in H.
     rewrite bind_run, sys_run in H. cbn [fst snd] in H. rewrite sys_lstat_fs in H.
     assert (Hdr : is_dir (s_fs s) dr = true) by (eapply chain_end_dir; apply (cx_root _ _ _ _ _ C)).
-    assert (Hfail : forall s1 (r1 : (bytes * list bytes) + N), s_fs s1 = s_fs s -> s_links s1 = s_links s -> (forall a, r1 <> inl a) ->
+    assert (Hfail : forall s1 (r1 : (bytes * list bytes) + N), s_fs s1 = s_fs s -> s_links s1 = s_links s -> s_parents s1 = s_parents s -> (forall a, r1 <> inl a) ->
               stays dr s s1 /\ s_links s1 = s_links s /\
               (forall d1 created, r1 = inl (d1, created) -> tdesc (s_fs s1) sf d1 /\ Forall (created_ok (s_fs s1)) created)).
-    { intros s1 r1 E1 E2 Hr. split; [apply stays_same; auto|]. split; auto. intros d1 cr Hx. exfalso. eapply Hr; eauto. }
+    { intros s1 r1 E1 E2 E3 Hr. split; [apply stays_same; auto|]. split; auto. intros d1 cr Hx. exfalso. eapply Hr; eauto. }
     destruct (snd (sys_lstat c (s_fs s) sf)) as [|e|sino sfi| | |] eqn:Esf;
       try (unfold fail in H; injection H as <- <-; apply Hfail; auto; discriminate).
-    rewrite bind_run, log_read_run in H. cbn [s_fs s_links s_reads] in H.
-    rewrite bind_run in H. unfold stat_opt in H. rewrite bind_run, sys_run in H. cbn [fst snd s_fs s_links s_reads] in H.
+    rewrite bind_run, log_read_run in H. cbn [s_fs s_links s_parents s_reads] in H.
+    rewrite bind_run in H. unfold stat_opt in H. rewrite bind_run, sys_run in H. cbn [fst snd s_fs s_links s_parents s_reads] in H.
     rewrite sys_stat_fs in H.
-    set (s2 := {| s_fs := s_fs s; s_links := s_links s; s_reads := sino :: s_reads s |}) in H.
+    set (s2 := {| s_fs := s_fs s; s_links := s_links s; s_parents := s_parents s; s_reads := sino :: s_reads s |}) in H.
     assert (C2 : Ctx (s_fs s2)) by exact C.
     (* what Stat(dest) said *)
     assert (Hst : (exists dfi : option (N * inode),
